@@ -156,6 +156,10 @@ THEOREM_CLASS_PROBLEMS = [
     # dense2 (`dense2_kernel_correct`, `dense2_matvec_kernel_denote`): dense contraction over j
     ("a(i) = b(i,j) * c(j)", {"a": "d", "b": "dd", "c": "d"}),
     ("a(i) = b(i,j) * c(j) * d(i)", {"a": "d", "b": "dd", "c": "d", "d": "d"}),
+    # spmv (`spmv_kernel_correct`, `spmv_kernel_denote`): CSR matrix times dense vector
+    ("a(i) = b(i,j) * c(j)", {"a": "d", "b": "ds", "c": "d"}),
+    # spmul (`spmul_kernel_correct`): product of two sparse vectors (intersection merge)
+    ("a(i) = b(i) * c(i)", {"a": "s", "b": "s", "c": "s"}),
 ]
 
 
